@@ -339,9 +339,43 @@ SMILES_BAD = ("C:C:C", "C:C:C:C:C", "N:O:C", "c1ccc2c(c1)ccn2", "c1ccc2c(c1)cco2
               "C1=CC=1", "C(C)(", ".C")
 
 
+_DATASET = None
+
+
+def dataset_smiles():
+    """Real-world SMILES from the small data files that ship with the repository's tests (data, not
+    code under test): hetero-aromatics, stereo centres, salts, charges, ring systems the hand-made
+    corpus lacks.  Sorted and de-duplicated, so a pure function of those files; empty if absent."""
+    global _DATASET
+    if _DATASET is None:
+        import csv
+        import os
+        from . import env
+        out = set()
+        base = os.path.join(env.REPO, "tests", "test_sets")
+        for rel in ("custom_cases.csv", "molnet/clintox.csv", "molnet/bbbp.csv", "molnet/freesolv.csv", "molnet/sider.csv"):
+            try:
+                with open(os.path.join(base, rel), newline="") as f:
+                    rd = csv.DictReader(f)
+                    col = next((c for c in (rd.fieldnames or []) if c.strip().lower() == "smiles"), None)
+                    if col is None:
+                        continue
+                    for row in rd:
+                        x = (row.get(col) or "").strip()
+                        if 0 < len(x) <= 90 and "*" not in x and "$" not in x:
+                            out.add(x)
+            except OSError:
+                continue
+        _DATASET = sorted(out)
+    return _DATASET
+
+
 def gen_smiles(rng, ctx):
     u = rng.random()
     tables = ctx["tables"]
+    data = dataset_smiles()
+    if data and rng.random() < 0.12:
+        return None, rng.choice(data)
     if u < 0.55:
         return stubs.gen_mol(rng, tables, rng.choice((4, 8, 14))), None
     if u < 0.65:
